@@ -11,7 +11,7 @@ WHEN = {
  "C45-A":"before","C45-B":"before","C16-A":"before","C16-B":"before","C14-A":"before","C14-B":"before",
  "C30-A":"before","C30-B":"before","C08-A":"before","C08-B":"before","C44-A":"before","C44-B":"before",
  "C46-A":"before","C46-B":"before","C31-A":"before","C31-B":"before","C48-A":"before","C48-B":"before",
- "C36-A":"before","C36-B":"missed","C34-A":"missed","C34-B":"before","C07-A":"before","C07-B":"before",
+ "C36-A":"before","C36-B":"after","C34-A":"missed","C34-B":"before","C07-A":"before","C07-B":"before",
  "C17-A":"before","C17-B":"missed","C25-A":"before","C25-B":"missed",
  "C13-A":"before","C13-B":"after","C15-A":"after","C15-B":"after","C10-A":"after","C10-B":"missed",
  "C01-A":"planned","C01-B":"after","C12-A":"after","C12-B":"after","C18-A":"after","C18-B":"after",
